@@ -193,6 +193,17 @@ def run_check(prop, harness_name, tier, seed, replay_path=None, selftest=False, 
         # the thorough job lists are larger than the wall budget: spread what is run over the whole list (seeded)
         import random
         random.Random(1234 + int(seed)).shuffle(jobs)
+    elif getattr(H, "ROUND_ROBIN", True):
+        # the wall budget cuts the tail of the job list: interleave the families so that each gets its share
+        groups, order = {}, []
+        for j in jobs:
+            groups.setdefault(j["family"], []).append(j)
+        lists = list(groups.values())
+        while any(lists):
+            for L in lists:
+                if L:
+                    order.append(L.pop(0))
+        jobs = order
     for j in jobs:
         j["harness"] = harness_name
         j["tier"] = tier
